@@ -15,7 +15,8 @@ MODEL_MODULE = 'V.C06.Model'
 READY = True
 RULE = ('cases = call sequences init; (begin; directives; end) x 1..3 with degenerate-heavy directives (empty head x {disjunctive, choice}, '
         'empty body, empty/all-zero/equal/unequal weights, bounds <= 0, = sum, > sum, INT_MAX, empty project/assume/minimize, several names per atom, '
-        'named/unnamed atoms mixed, nested theory terms with operators and all tuple kinds, guards) plus a malformed theory stream '
+        'named/unnamed atoms mixed, nested theory terms with operators and all tuple kinds, guards; theory programs of 3-4 steps with steps that define '
+        'terms/elements but no theory atom and later steps that re-define term/element ids of earlier steps and use them) plus a malformed theory stream '
         '(redefinition, unknown ids, theory atom on a named atom); non-trivial = status ok and some statement was written; distinct = distinct case tuples')
 TRUSTED_BASE = ['props/C06.py reference parser for the ground syntax (oracle on the implementation)',
                 'std::ostream formatting of int/unsigned modelled by Lib/Dec.v print_Z/print_nat']
@@ -763,38 +764,69 @@ SYMS = [b'p', b'f', b'+', b'-', b'*', b'<=', b'sum', b'x', b'"s t"', b'', b'~', 
 
 
 class TheoryGen:
-    """Generates well-formed (acyclic, defined-before-use) theory data with small ids."""
+    """Generates well-formed (acyclic, defined-before-use) theory data with small ids.
+    Ids need only be unique within one step: with `redefine` a later step RE-DEFINES term / element ids of earlier steps with new
+    content (never an id it has already defined itself) and then uses them; `step(.., atoms=False)` defines terms / elements but no
+    theory atom (seeded change C06-r5: every beginStep closes the theory frame, whether or not the step before wrote an atom).
+    Acyclicity under redefinition: a compound term refers only to term ids smaller than its own (fresh ids grow, so this is what
+    the generator did anyway)."""
 
-    def __init__(self, rnd):
+    def __init__(self, rnd, redefine=False):
         self.rnd, self.terms, self.syms, self.elems = rnd, [], [], []
         self.nt = self.ne = 0
         self.tatom_atoms = set()
+        self.redefine = redefine
+        self.new_t, self.new_e = set(), set()
 
-    def step(self, used_names, n):
+    def term_id(self):
+        old = [x for x in self.terms if x not in self.new_t]
+        if self.redefine and old and self.rnd.random() < 0.5:
+            i = self.rnd.choice(old)
+            if i in self.syms:
+                self.syms.remove(i)
+        else:
+            i = self.nt; self.nt += 1
+            self.terms.append(i)
+        self.new_t.add(i)
+        return i
+
+    def elem_id(self):
+        old = [x for x in self.elems if x not in self.new_e]
+        if self.redefine and old and self.rnd.random() < 0.5:
+            i = self.rnd.choice(old)
+        else:
+            i = self.ne; self.ne += 1
+            self.elems.append(i)
+        self.new_e.add(i)
+        return i
+
+    def step(self, used_names, n, atoms=True):
         rnd, out = self.rnd, []
+        self.new_t, self.new_e = set(), set()
         for _ in range(n):
             r = rnd.random()
+            if not atoms and r >= 0.72:
+                r = rnd.random() * 0.72
             if r < 0.2 or not self.terms:
-                i = self.nt; self.nt += 1
+                i = self.term_id()
                 if rnd.random() < 0.5:
                     out.append((13, i, g_int(rnd)))
                 else:
                     out.append((14, i, rnd.choice(SYMS)))
                     self.syms.append(i)
-                self.terms.append(i)
             elif r < 0.5:
-                i = self.nt; self.nt += 1
-                args = [rnd.choice(self.terms) for _ in range(rnd.choice([0, 1, 1, 2, 2, 3]))]
-                if rnd.random() < 0.3:
+                i = self.term_id()
+                below = [x for x in self.terms if x < i]
+                sbelow = [x for x in self.syms if x < i]
+                args = [rnd.choice(below) for _ in range(rnd.choice([0, 1, 1, 2, 2, 3]))] if below else []
+                if rnd.random() < 0.3 or not below:
                     base = rnd.choice([-1, -2, -3])
                 else:
-                    base = rnd.choice(self.syms) if self.syms and rnd.random() < 0.85 else rnd.choice(self.terms)
+                    base = rnd.choice(sbelow) if sbelow and rnd.random() < 0.85 else rnd.choice(below)
                 out.append((15, i, base, args))
-                self.terms.append(i)
             elif r < 0.72:
-                i = self.ne; self.ne += 1
+                i = self.elem_id()
                 out.append((16, i, [rnd.choice(self.terms) for _ in range(g_len(rnd, 3))], [g_lit(rnd) for _ in range(g_len(rnd, 3))]))
-                self.elems.append(i)
             else:
                 a = 0
                 if rnd.random() < 0.6:
@@ -803,7 +835,9 @@ class TheoryGen:
                         a = rnd.choice(cand)
                         self.tatom_atoms.add(a)
                 es = [rnd.choice(self.elems) for _ in range(g_len(rnd, 3))] if self.elems else []
-                t = rnd.choice(self.terms)
+                if self.redefine and self.new_e and rnd.random() < 0.5:
+                    es = [rnd.choice(sorted(self.new_e)) for _ in range(rnd.randint(1, 3))]     # what this step has just (re)defined
+                t = rnd.choice(sorted(self.new_t)) if (self.redefine and self.new_t and rnd.random() < 0.4) else rnd.choice(self.terms)
                 if rnd.random() < 0.4:
                     out.append((18, a, t, es, rnd.choice(self.terms), rnd.choice(self.terms)))
                 else:
@@ -811,22 +845,27 @@ class TheoryGen:
         return out
 
 
-def g_program(rnd, theory=False, nsteps=None):
-    nsteps = nsteps or rnd.choice([1, 1, 1, 2, 3])
+def g_program(rnd, theory=False, nsteps=None, redefine=False):
+    """`redefine` (theory programs): incremental, 3-4 steps; steps without a theory atom; later steps re-define earlier ids."""
+    nsteps = nsteps or (rnd.choice([2, 3, 3, 4]) if redefine else rnd.choice([1, 1, 1, 2, 3, 4] if theory else [1, 1, 1, 2, 3]))
     inc = nsteps > 1 or rnd.random() < 0.25
-    if nsteps > 1 and rnd.random() < 0.15:
+    if nsteps > 1 and rnd.random() < 0.15 and not redefine:
         inc = False
     prog = [(1, inc)]
-    tg = TheoryGen(rnd) if theory else None
+    tg = TheoryGen(rnd, redefine) if theory else None
     for s in range(nsteps):
         prog.append((2,))
-        ds = [g_dir(rnd) for _ in range(rnd.choice([0, 1, 2, 3, 5, 8]))]
+        ds = [g_dir(rnd) for _ in range(rnd.choice([0, 1, 2, 3, 5, 8] if not redefine else [0, 0, 1, 2, 3]))]
         if tg:
             if not inc:
                 tg = TheoryGen(rnd)
             named = set(c[2][0] for c in prog + ds if c[0] == 8 and len(c[2]) == 1 and c[2][0] > 0)
             # outputs on atoms that (will) carry a theory atom are dropped: the writer refuses them (see error stream)
-            tds = tg.step(named, rnd.choice([2, 4, 6, 10]))
+            if redefine:
+                atoms = s == nsteps - 1 or rnd.random() < (0.3 if s == 0 else 0.6)
+            else:
+                atoms = not (inc and nsteps > 1 and rnd.random() < 0.2)
+            tds = tg.step(named, rnd.choice([2, 4, 6, 10]), atoms)
             ds = [c for c in ds if not (c[0] == 8 and len(c[2]) == 1 and c[2][0] in tg.tatom_atoms)]
             allc = ds + tds
             # keep the relative order of theory calls (defined before use), interleave with the rest
@@ -871,6 +910,15 @@ FIXED = [
     # "&p{1 : a}." : the term 1:a (infix operator ":") - the same text as the term 1 under the condition a
     ([(1, False), (2,), (14, 0, b'p'), (13, 1, 1), (14, 2, b':'), (14, 3, b'a'), (15, 4, 2, [1, 3]), (16, 0, [4], []), (17, 0, 0, [0]), (3,)],
      'theory-separator-operator'),
+    # seeded change C06-r5: the base step defines terms and an element but no theory atom; steps 1 and 2 re-define the ids and use them
+    ([(1, True), (2,), (4, 1, [1], []), (14, 0, b'load'), (13, 1, 10), (16, 0, [1], []), (3,),
+      (2,), (13, 1, 20), (16, 0, [1], [1]), (17, 0, 0, [0]), (3,),
+      (2,), (13, 1, 30), (16, 0, [1], []), (17, 0, 0, [0]), (3,)], 'theory-redefine-after-atomless-step'),
+    # the same after a step WITH an atom: step 1 adds a term only, step 2 re-defines it (and the symbol becomes a number's neighbour)
+    ([(1, True), (2,), (14, 0, b'p'), (13, 1, 1), (16, 0, [1], []), (17, 0, 0, [0]), (3,),
+      (2,), (13, 2, 2), (16, 1, [2], [-1]), (3,),
+      (2,), (14, 2, b'q'), (16, 1, [2, 1], []), (17, 7, 0, [1, 0]), (4, 0, [7], []), (3,),
+      (2,), (13, 1, 5), (17, 0, 0, [0, 1]), (3,)], 'theory-redefine-after-atomless-step'),
 ]
 
 
@@ -885,8 +933,11 @@ def gen(seed, tier):
         elif r < 0.6:
             # a single degenerate directive
             out.append((enc_all([(1, False), (2,), g_dir(rnd), (3,)]), {'kind': 'single-directive'}))
-        elif r < 0.92:
+        elif r < 0.82:
             out.append((enc_all(g_program(rnd, theory=True)), {'kind': 'theory'}))
+        elif r < 0.92:
+            # ids are unique per step only: atom-less steps, later steps that re-define earlier term / element ids and use them
+            out.append((enc_all(g_program(rnd, theory=True, redefine=True)), {'kind': 'theory-redefine'}))
         else:
             p = g_program(rnd, theory=True)
             # malformed: duplicate a theory definition, reference an unknown id, or name a theory atom's atom
